@@ -216,7 +216,10 @@ func runDownFiles(t *testing.T, col *ev.Collector) {
 	if !ev.Rapid(t, col, "downfiles-sqlite", col.N(1500, 150000), genDown, check, knownD) {
 		return
 	}
-	runDialectDown(t, col)
+	if !runDialectDown(t, col) {
+		return
+	}
+	runInverse(t, col)
 }
 
 // GCase: plans of all three dialects (no engine) for the reversible flag and the down files.
@@ -352,6 +355,66 @@ func genG(t *rapid.T) GCase {
 		}
 	}
 	return c
+}
+
+var knownInv = ev.Matcher[GCase]{
+	// PostgreSQL: the reverse of DROP COLUMN / DROP INDEX re-creates the object without its comment (comments are separate
+	// statements of the forward plan; the reverse holds the ALTER / CREATE INDEX statement only)
+	"postgres-reverse-lacks-comment": func(c GCase, err error) bool {
+		return c.Dialect == "postgres" && strings.Contains(err.Error(), "(missing-kinds: [COMMENT ON])")
+	},
+}
+
+func runInverse(t *testing.T, col *ev.Collector) bool {
+	check := func(c GCase) error {
+		out, err := checkInverse(c)
+		switch {
+		case !out.Reversible:
+			col.Class("inverse-plan/" + c.Dialect + "/not-reversible-or-refused")
+		case out.Compared:
+			col.Class("inverse-plan/" + c.Dialect + "/compared")
+			var ks []string
+			for _, e := range c.Edits {
+				ks = append(ks, e.Kind+"@"+e.Table+"."+e.Obj)
+			}
+			col.NonTrivial(fmt.Sprintf("inverse|%s|%v", c.Dialect, ks))
+		}
+		col.Sample("inverse-plan/"+c.Dialect, c)
+		return err
+	}
+	for _, d := range []string{"mysql", "postgres"} {
+		for _, s := range c02.Sites(d, c02.Base(d)) {
+			if !ev.Each(col, "inverse-plan", GCase{Dialect: d, Scenario: "modify", Edits: []c02.EditRef{s.E}}, check, knownInv) {
+				return false
+			}
+		}
+	}
+	gen := func(t *rapid.T) GCase {
+		c := genG(t)
+		c.Dialect = rapid.SampledFrom([]string{"mysql", "postgres"}).Draw(t, "idialect")
+		c.Scenario, c.Flavour, c.Unnamed, c.Edits = "modify", "", nil, nil
+		sites := c02.Sites(c.Dialect, c02.Base(c.Dialect))
+		perm := rapid.Permutation(sites).Draw(t, "isites")
+		n := rapid.IntRange(1, 5).Draw(t, "inedits")
+		var chosen []c02.Site
+		for _, s := range perm {
+			if len(chosen) == n {
+				break
+			}
+			ok := true
+			for _, x := range chosen {
+				if c02.Conflict(x, s) {
+					ok = false
+				}
+			}
+			if ok {
+				chosen = append(chosen, s)
+				c.Edits = append(c.Edits, s.E)
+			}
+		}
+		return c
+	}
+	return ev.Rapid(t, col, "inverse-plan", col.N(1500, 150000), gen, check, knownInv)
 }
 
 func runDialectDown(t *testing.T, col *ev.Collector) bool {
